@@ -336,7 +336,8 @@ def classify_crash(r):
 
 
 def asan_site(err):
-    """First library frame of a sanitizer report (file:line), for keying."""
+    """First library frame of a sanitizer report as 'file:function' (line numbers move with every edit,
+    function names do not), preferring a frame outside the generic container/algorithm headers."""
     import re
     p = err.find("ERROR: AddressSanitizer")
     if p < 0:
@@ -347,14 +348,18 @@ def asan_site(err):
                "include/manifold/vec_view.h")
     first = None
     for line in err.split("\n"):
-        m = re.search(r"(/repo/(?:src|include)/[^\s:]+:\d+)", line)
-        if m:
-            site = m.group(1).replace("/repo/", "")
-            if first is None:
-                first = site
-            # prefer the first frame that is not one of the generic container/algorithm headers
-            if not site.startswith(generic):
-                return site
+        m = re.search(r"#\d+ 0x[0-9a-f]+ in (.+?) (/repo/(?:src|include)/[^\s:]+):\d+", line)
+        if not m:
+            continue
+        fn = m.group(1)
+        fn = re.sub(r"\(.*$", "", fn)            # drop the argument list
+        fn = re.sub(r"<.*>", "", fn)              # and template arguments
+        fn = fn.split("::")[-1].strip() or "?"
+        site = "%s:%s" % (m.group(2).replace("/repo/", ""), fn)
+        if first is None:
+            first = site
+        if not site.startswith(generic):
+            return site
     if first:
         return first
     m = re.search(r"runtime error: ([^\n]+)", err)
